@@ -405,11 +405,53 @@ func (c *checker) one(in string, maxW int) {
 	}
 }
 
+// wide: the small widths above cannot cross thresholds inside the implementation (a
+// pre-built run of blanks, a buffer size). Every function at widths around 80, 160, 256,
+// 1000 and 4096 on short strings and on a few long ones.
+func (c *checker) wide() int64 {
+	var inputs []string
+	for n := 0; n <= 2; n++ {
+		total := int64(1)
+		for i := 0; i < n; i++ {
+			total *= int64(len(sigma6))
+		}
+		for code := int64(0); code < total; code++ {
+			inputs = append(inputs, build(sigma6, code, n))
+		}
+	}
+	inputs = append(inputs,
+		strings.Repeat("a", 100), strings.Repeat("a", 300), strings.Repeat("ab ", 120), strings.Repeat("a b\n", 60),
+		strings.Repeat(styleA, 90)+" "+strings.Repeat("b", 200), strings.Repeat(" ", 170)+"a", "a"+strings.Repeat(" ", 170)+"b",
+		strings.Repeat("a", 79)+"\n"+strings.Repeat("b", 161))
+	var n int64
+	for _, in := range inputs {
+		n += c.wideOne(in)
+	}
+	return n
+}
+
+func (c *checker) wideOne(in string) (n int64) {
+	inC, _, _ := oracle.Cells(in)
+	for _, w := range []int{79, 80, 81, 159, 160, 161, 200, 255, 256, 257, 1000, 4096, 4097} {
+		c.wrap(in, inC, w)
+		c.dumbWrap(in, inC, w)
+		c.pad(in, inC, w)
+		for _, h := range []int{1, 3, 100} {
+			c.snip(in, inC, w, h)
+		}
+		if !strings.Contains(in, "\x1b") {
+			c.setLength(in, w)
+		}
+		n += 7
+	}
+	return n
+}
+
 func main() {
 	r := ev.New("C13", "exploration",
 		"every string of cells over Σ6={a,b,space,newline,styled a,styled space} up to the length bound and over "+
 			"Σ9={a,space,newline,styled a,wide 字,NBSP,e,combining accent,tab} up to a smaller bound, each run through Wrap/DumbWrap/Pad at "+
-			"widths 1..W (W=5 quick, 7 thorough), Indent with 3 prefixes x includeFirst, Snip at widths 1..4 x heights 1..3 x 2 ellipses, SetLength at 1..W; "+
+			"widths 1..W (W=5 quick, 7 thorough), Indent with 3 prefixes x includeFirst, Snip at widths 1..4 x heights 1..3 x 2 ellipses, SetLength at 1..W; plus every function at 13 widths around 80, 160, 256, 1000 and 4096 on all strings of length <=2 and 8 long strings; "+
 			"distinct_nontrivial counts distinct input strings of length >= 2 that contain whitespace and a visible cell")
 	c := &checker{r}
 	if *ev.FlagReplay != "" {
@@ -418,6 +460,7 @@ func main() {
 		}
 		key := ev.LoadReplay(*ev.FlagReplay, &d)
 		c.one(d.Input, 7)
+		c.wideOne(d.Input)
 		if r.ViolationCount() > 0 {
 			fmt.Printf("reproduced %s on input %q\n", key, d.Input)
 		}
@@ -453,6 +496,7 @@ func main() {
 	}
 	run(sigma6, n6)
 	run(sigma9, n9)
+	r.Eval(c.wide())
 	r.Sample(map[string]any{"input": build(sigma6, 123456, n6), "functions": "Wrap,DumbWrap,Pad w=1..7; Indent; Snip; SetLength"})
 	r.Sample(map[string]any{"input": build(sigma9, 4242, n9)})
 	r.Extra["strings"] = nontrivial
